@@ -31,12 +31,14 @@ pub struct C10Case {
 pub const FAMILIES: &[(&str, u64)] = &[("tiny", 3), ("tiny-hints", 3), ("tiny-soft", 1), ("medium", 2), ("medium-hints", 2), ("conf", 2), ("conf-hints", 2), ("lazy-hints", 1), ("deep-hints", 1)];
 
 /// Duplicate provider calls in a log (within one solver): a call for something the provider has
-/// already answered, or for something that is still being asked (called, neither answered nor
-/// dropped). A call whose future was dropped unanswered may legitimately be issued again.
+/// already answered, or for something that was already asked in this log - unless the PROVIDER
+/// itself gave that earlier call up (it abandoned a re-entrant cache query of its own, see
+/// `Ev::ProviderDrops`). A request the solver drops and issues again is "asked twice".
 pub fn duplicate_calls(log: &[Ev]) -> Vec<String> {
     let mut open: BTreeMap<String, ()> = BTreeMap::new();
     let mut answered: BTreeMap<String, ()> = BTreeMap::new();
     let mut dup: BTreeMap<String, u32> = BTreeMap::new();
+    let mut provider_drops = false;
     for e in log {
         match e {
             Ev::CandCall(_) | Ev::DepsCall(_) => {
@@ -55,10 +57,11 @@ pub fn duplicate_calls(log: &[Ev]) -> Vec<String> {
                 open.remove(&k);
                 answered.insert(k, ());
             }
-            Ev::CandDropped(n) => {
+            Ev::ProviderDrops(b) => provider_drops = *b,
+            Ev::CandDropped(n) if provider_drops => {
                 open.remove(&format!("{:?}", Ev::CandCall(*n)));
             }
-            Ev::DepsDropped(n) => {
+            Ev::DepsDropped(n) if provider_drops => {
                 open.remove(&format!("{:?}", Ev::DepsCall(*n)));
             }
             _ => {}
